@@ -14,7 +14,7 @@ EXTENDS Lattice
 NbrSet(I, n) == {I.nbrs[n][j] : j \in 1..Len(I.nbrs[n])}
 EdgeExists(I, e) == e[1] \in I.nodes /\ e[2] \in NbrSet(I, e[1]) /\ e[1] # e[2]
 StateExists(I, st) == IF IsEdge(st) THEN EdgeExists(I, st) ELSE st[1] \in I.nodes
-LinkedSet(I, e) == {I.linked[e][j] : j \in 1..Len(I.linked[e])}
+LinkedSet(I, e) == IF e \in DOMAIN I.linked THEN {I.linked[e][j] : j \in 1..Len(I.linked[e])} ELSE {}
 LegalMove(I, a, b) ==
   \/ a = b                                                            \* same state
   \/ IsEdge(a) /\ IsEdge(b) /\ b[1] = a[2] /\ EdgeExists(I, b)        \* edge to an edge leaving its end node
@@ -66,12 +66,13 @@ Aligned(path, idx, complete) ==
 Collapse(sts) == SelectSeq([j \in 1..Len(sts) |-> <<sts[j], j = 1 \/ sts[j] # sts[j - 1]>>], LAMBDA x : x[2])
 UniqueStates(sts) == LET c == Collapse(sts) IN [j \in 1..Len(c) |-> c[j][1]]
 
-\* C05 (thresholds): no state on the path beyond the cut-offs
+\* C05 (thresholds): no state on the path beyond the cut-offs.  cf.slack = 0 for integer tables; for
+\* values recorded in fixed point from the real matchers it absorbs the rounding of the conversion.
 CutoffsHonoured(cf, path) ==
   \A j \in 1..Len(path) :
      /\ path[j].dist <= cf.maxDist
-     /\ (j = 1 => path[j].dist < cf.maxDistInit)
-     /\ path[j].lp * cf.minlp[2] >= cf.minlp[1] * path[j].len
+     /\ (j = 1 => path[j].dist < cf.maxDistInit + cf.slack)
+     /\ path[j].lp * cf.minlp[2] + cf.slack * path[j].len >= cf.minlp[1] * path[j].len
 
 (***************************************************************************)
 (* C02: the model score of a path, recomputed from the tables alone.       *)
@@ -161,7 +162,7 @@ SelectionSoundLayer(L, W, now) ==
   LET live == Live(L)
       X == {j \in 1..Len(live) : live[j].delayed <= now}
       P == {j \in 1..Len(live) : live[j].delayed > now}
-  IN /\ \A p \in P : \A x \in X : live[p].lp <= live[x].lp
+  IN /\ \A p \in P : \A x \in X : live[p].lp < live[x].lp       \* exact ties are expanded together
      /\ W # NoW => \A x \in X : Cardinality({j \in 1..Len(live) : live[j].lp > live[x].lp}) < W
      /\ W = NoW => P = {}
 SelectionSound(lat, W, now) ==
